@@ -20,13 +20,13 @@ DATA = {
     "many": [["1", "a", "blue"], ["2", "b", "red"], ["3", "c", "green"], ["4", "d", "blue"]],
     "other": [["2", "x", "blue"], ["5", "y", "green"]],
     # a value outside the choices, a character outside the allowed characters, then rows using the last declared choice and the same character again
-    "bad": [["6", "a", "black"], ["7", "\xfc", "red"], ["8", "b", "blue"], ["9", "\xfc", "blue"], ["10", "", "red"], ["11", "", "green"]],  # and an empty name, twice
+    "bad": [["-1", "a", "red"], ["6", "a", "black"], ["7", "\xfc", "red"], ["8", "b", "blue"], ["9", "\xfc", "blue"], ["10", "", "red"], ["11", "", "green"], ["12", "ab", "red"], ["-2", "b", "red"]],  # an empty name, twice; ids outside their multi-part range at the start and at the end (the messages quote the range)
 }
 CIDS = {
-    "delimited": [["D", "Format", "Delimited"], ["D", "Line delimiter", "LF"], ["F", "id", "", "", "", "Integer", "0...99"], ["F", "name", "", "", "1...2"], ["F", "kind", "", "", "", "Choice", "red, green, blue"],
-                  ["D", "Allowed characters", "32...126"], ["C", "uniq", "IsUnique", "id"], ["C", "few", "DistinctCount", "name < 3"]],
-    "fixed": [["D", "Format", "Fixed"], ["D", "Line delimiter", "LF"], ["F", "id", "", "", "2", "Integer", "0...99"], ["F", "name", "", "", "2"], ["F", "kind", "", "", "5", "Choice", "red, green, blue"],
-              ["D", "Allowed characters", "32...126"], ["C", "uniq", "IsUnique", "id"], ["C", "few", "DistinctCount", "name < 3"]],
+    "delimited": [["D", "Format", "Delimited"], ["D", "Line delimiter", "LF"], ["F", "id", "", "", "", "Integer", "0...9, 10...99"], ["F", "name", "", "", "1, 2"], ["F", "kind", "", "", "", "Choice", "red, green, blue"],
+                  ["D", "Allowed characters", "32...57, 58...126"], ["C", "uniq", "IsUnique", "id"], ["C", "few", "DistinctCount", "name < 3"]],
+    "fixed": [["D", "Format", "Fixed"], ["D", "Line delimiter", "LF"], ["F", "id", "", "", "2", "Integer", "0...9, 10...99"], ["F", "name", "", "", "2"], ["F", "kind", "", "", "5", "Choice", "red, green, blue"],
+              ["D", "Allowed characters", "32...57, 58...126"], ["C", "uniq", "IsUnique", "id"], ["C", "few", "DistinctCount", "name < 3"]],
 }
 # fixed data whose lines end in a lone CR, read under the default line delimiter 'any' (the reader has to look one character ahead)
 CIDS["fixed_cr"] = [row for row in CIDS["fixed"] if row[1] != "Line delimiter"]
@@ -90,6 +90,25 @@ def op_abandon(cid, kind, keep, name, count, hold):
             generator.close()
         except errors.CutplaceError as error:
             out.append(["CLOSE-RAISED", harness.describe_error(error)])
+    return out
+
+
+def op_read_releasing_midway(cid, kind, keep, name):
+    """A read during which, after its first item, every abandoned run held so far is finalised (as the garbage collector may do at any moment)."""
+    import cutplace
+
+    m = harness.modules()
+    generator = cutplace.rows(cid, harness.NamedStringIO(text_of(kind, name), "data.txt"), on_error="yield")
+    out = []
+    try:
+        for index, item in enumerate(generator):
+            out.append(harness.describe_error(item) if isinstance(item, Exception) else list(item))
+            if index == 0:
+                out.append(["released", op_release(cid, kind, keep)])
+    except m["errors"].CutplaceError as error:
+        out.append(["RAISED", harness.describe_error(error)])
+    except Exception as error:
+        out.append(["FOREIGN", type(error).__name__, str(error)])
     return out
 
 
@@ -279,6 +298,7 @@ OPS = {
     "validate_bad": (op_validate, ("bad",)),
     "read_bad_yield": (op_read, ("bad", "yield")),
     "read_other_until0": (op_read, ("other", "yield", 0)),
+    "read_dup_releasing_midway": (op_read_releasing_midway, ("dup",)),
     "read_dup_until1": (op_read, ("dup", "continue", 1)),
     "read_bad_raise": (op_read, ("bad", "raise")),
     "open_close_reader": (op_open_close, ("other", False)),
